@@ -538,7 +538,12 @@ impl World {
                         // RFC 4861 7.2.5: the advertisement is about its Target Address
                         out.push((tgt, *l, base.map(|_| "na")));
                         if s != tgt {
-                            out.push((s, *l, base.and(Err("na-source-is-not-its-target"))));
+                            // smoltcp records the option for the advertisement's IP source (pinned
+                            // by its unit tests ndisc_neighbor_advertisement_*). The statement only
+                            // asks for addresses "learned" from validated NDISC, so a valid NA is
+                            // accepted as a claim for its source as well (lead's judgement: flagging
+                            // it would demand RFC 4861 7.2.5 semantics the statement does not name).
+                            out.push((s, *l, base.map(|_| "na-about-another-target")));
                         }
                     } else {
                         // RFC 4861 7.2.3: a solicitation for an address that is not ours MUST be discarded
@@ -1079,7 +1084,9 @@ impl World {
     }
 }
 
-const ACTED_ON: [&str; 3] = ["ns-target-not-ours", "na-source-is-not-its-target", "packet-not-addressed-to-us:low-16-bits-match-own-address"];
+// Reasons smoltcp is (or was) known to act on, the still-open one first: when several
+// illegitimate claims co-exist the failure is attributed to the known root cause.
+const ACTED_ON: [&str; 2] = ["ns-target-not-ours", "packet-not-addressed-to-us:low-16-bits-match-own-address"];
 const ALL_NODES: [u8; 16] = [0xff, 0x02, 0, 0, 0, 0, 0, 0, 0, 0, 0, 0, 0, 0, 0, 1];
 
 fn draw_cidrs(src: &mut Src, first: bool, lowpan: bool) -> Vec<Cidr> {
@@ -1633,7 +1640,14 @@ pub fn run(src: &mut Src, ctx: &mut Ctx, lowpan: bool) -> Result<(), Fail> {
     ctx.count("tail_ms", (w.now - tail_start) as u64);
     for (i, id, d) in &expected {
         if !w.seen_ids.contains(id) {
-            let key = if w.tail_unanswerable > 0 { "tail:starved-by-unanswerable-discovery" } else { "tail:datagram-never-sent" };
+            if w.tail_unanswerable > 0 {
+                // The datagram is still queued (not lost), which is all C16 states; that it is
+                // never sent because another socket's unanswerable next hop monopolises the global
+                // discovery slot is property C09's claim (open finding there). Counted only.
+                ctx.label("observed:starved-by-unanswerable-discovery");
+                break;
+            }
+            let key = "tail:datagram-never-sent";
             report(ctx, Fail::new(
                 key,
                 format!(
@@ -1649,8 +1663,10 @@ pub fn run(src: &mut Src, ctx: &mut Ctx, lowpan: bool) -> Result<(), Fail> {
             break;
         }
     }
-    if expect_syn && !w.syn_seen {
-        let key = if w.tail_unanswerable > 0 { "tail:starved-by-unanswerable-discovery" } else { "tail:syn-never-sent" };
+    if expect_syn && !w.syn_seen && w.tail_unanswerable > 0 {
+        ctx.label("observed:starved-by-unanswerable-discovery");
+    } else if expect_syn && !w.syn_seen {
+        let key = "tail:syn-never-sent";
         report(ctx, Fail::new(key, format!("TCP connect to {:?} never put a SYN on the wire although its next hop is resolvable", w.tcp_remote.map(|r| r.to_string()))))?;
     }
     if !expected.is_empty() {
